@@ -1,5 +1,12 @@
 mod eng_c07;
 mod eng_c08;
+mod eng_c09;
+mod eng_c10;
+mod eng_c11;
+mod eng_c12;
+mod eng_c14;
+mod eng_c17;
+mod eng_c19;
 mod eng_c13;
 mod eng_c20;
 
@@ -26,6 +33,13 @@ fn main() {
         "C08" => eng_c08::run(&cfg),
         "C13" => eng_c13::run(&cfg),
         "C20" => eng_c20::run(&cfg),
+        "C09" => eng_c09::run(&cfg),
+        "C10" => eng_c10::run(&cfg),
+        "C11" => eng_c11::run(&cfg),
+        "C12" => eng_c12::run(&cfg),
+        "C14" => eng_c14::run(&cfg),
+        "C17" => eng_c17::run(&cfg),
+        "C19" => eng_c19::run(&cfg),
         other => {
             eprintln!("unknown property {}", other);
             std::process::exit(2);
